@@ -67,7 +67,7 @@ theorem C04_frame (o : Opts) (isComp : Bool) (nameN valueN : Node) (as : List St
     (n : String) (arg mods : Option Node) (v : Node) (st' : St)
     (hd : isDirectiveAttrName (attrNameOf nameN) = true)
     (hp : parseDirective (attrNameOf nameN) valueN isComp st = (.normal n arg mods v, st')) :
-    let r := (attrStep o isComp (.mk .jsxAttr as [nameN, valueN]) acc st).1
+    let r := (attrStep o isComp (.mk .jsxAttr as [nameN, valueN]) none acc st).1
     r.props = acc.props ∧ r.mergeArgs = acc.mergeArgs ∧ r.dynamicProps = acc.dynamicProps
       ∧ r.directives = acc.directives ++ [(n, arg, mods, v)] := by
   simp [attrStep, hd, hp]
@@ -77,7 +77,7 @@ theorem C04_html_sets_innerHTML (o : Opts) (isComp : Bool) (nameN valueN : Node)
     (st st' : St) (e : Node)
     (hd : isDirectiveAttrName (attrNameOf nameN) = true)
     (hp : parseDirective (attrNameOf nameN) valueN isComp st = (.html e, st')) :
-    let r := (attrStep o isComp (.mk .jsxAttr as [nameN, valueN]) acc st).1
+    let r := (attrStep o isComp (.mk .jsxAttr as [nameN, valueN]) none acc st).1
     r.props = acc.props ++ [nKV (nStr "innerHTML") e] ∧ r.directives = acc.directives := by
   simp [attrStep, hd, hp]
 
@@ -86,7 +86,7 @@ theorem C04_text_sets_textContent (o : Opts) (isComp : Bool) (nameN valueN : Nod
     (st st' : St) (e : Node)
     (hd : isDirectiveAttrName (attrNameOf nameN) = true)
     (hp : parseDirective (attrNameOf nameN) valueN isComp st = (.text e, st')) :
-    let r := (attrStep o isComp (.mk .jsxAttr as [nameN, valueN]) acc st).1
+    let r := (attrStep o isComp (.mk .jsxAttr as [nameN, valueN]) none acc st).1
     r.props = acc.props ++ [nKV (nStr "textContent") e] ∧ r.directives = acc.directives := by
   simp [attrStep, hd, hp]
 
